@@ -1,18 +1,253 @@
-//! C05 — not built yet.
+//! C05 — the cache never serves a record past its TTL.
+//!
+//! Explicit-state search (stateright) over histories of operations on the real
+//! `SharedCache` under the virtual clock hook; every transition is judged by
+//! the reference in `cachemodel`.  Two clock disciplines (tie / tick).
+
+use crate::cachemodel::*;
 use crate::common::*;
-use serde_json::Value;
+use serde_json::{json, Value};
+use std::time::Duration;
 
-pub fn run(_ctx: &Ctx) -> i32 {
-    eprintln!("C05: check not built");
-    2
+pub fn alphabet(tier: Tier) -> Vec<Op> {
+    let mut ops = Vec::new();
+    let names: &[u8] = tier.pick(&[1, 2][..], &[1, 2, 3][..]);
+    let ttls: &[u32] = tier.pick(&[0, 1, 3][..], &[0, 1, 3, u32::MAX][..]);
+    for &n in names {
+        for (ty, val) in [(Ty::A, 1u8), (Ty::A, 2), (Ty::Txt, 1)] {
+            if n == 3 && val == 2 {
+                continue;
+            }
+            for &ttl in ttls {
+                ops.push(Op::Ins(Rec { name: n, ty, val, ttl }));
+            }
+        }
+    }
+    ops.push(Op::InsAll(vec![
+        Rec { name: 1, ty: Ty::A, val: 1, ttl: 1 },
+        Rec { name: 1, ty: Ty::Txt, val: 1, ttl: 3 },
+    ]));
+    ops.push(Op::InsAll(vec![
+        Rec { name: 1, ty: Ty::A, val: 1, ttl: 0 },
+        Rec { name: 2, ty: Ty::Txt, val: 1, ttl: 1 },
+    ]));
+    ops.push(Op::InsAll(vec![
+        Rec { name: 1, ty: Ty::A, val: 1, ttl: 1 },
+        Rec { name: 1, ty: Ty::A, val: 1, ttl: 3 },
+    ]));
+    for &n in names {
+        for q in [Q::A, Q::Txt, Q::Any] {
+            ops.push(Op::Get(n, q));
+        }
+    }
+    ops.push(Op::Get(1, Q::Mx));
+    ops.push(Op::GetUnchecked(1, Q::Any));
+    ops.push(Op::GetUnchecked(1, Q::A));
+    ops.push(Op::Prune);
+    ops.push(Op::Adv(500));
+    ops.push(Op::Adv(1000));
+    ops.push(Op::Adv(3000));
+    if tier == Tier::Thorough {
+        ops.push(Op::Adv(999));
+    }
+    ops
 }
 
-pub fn replay(_ctx: &Ctx, _v: &Value) -> i32 {
-    eprintln!("C05: check not built");
-    2
+pub struct Plan {
+    pub desired: usize,
+    pub tick: bool,
+    pub depth: usize,
 }
 
-/// Entry point for `vcheck worker C05 <args...>` (child-process mode).
+pub fn run_plans(
+    ctx: &Ctx,
+    focus: Focus,
+    alphabet: &[Op],
+    plans: &[Plan],
+    report: &mut Report,
+    budget_s: f64,
+) {
+    let mut samples_left = 5usize;
+    let mut searches = Vec::new();
+    for (i, plan) in plans.iter().enumerate() {
+        let cfg = Config {
+            desired_size: plan.desired,
+            tick: plan.tick,
+            focus,
+        };
+        let remaining = budget_s - ctx.elapsed();
+        if remaining <= 1.0 {
+            report.exhaustive = false;
+            searches.push(json!({"desired_size": plan.desired, "tick": plan.tick, "depth": plan.depth, "skipped": "wall-clock budget used up"}));
+            continue;
+        }
+        let share = remaining / (plans.len() - i) as f64;
+        let res = search(
+            &cfg,
+            alphabet,
+            plan.depth,
+            ctx.threads,
+            ctx.tier == Tier::Thorough,
+            Duration::from_secs_f64(share.max(2.0)),
+            Some((ctx.id, ctx.tier, ctx.seed, ctx.start)),
+        );
+        report.states += res.unique;
+        report.transitions += res.transitions;
+        report.evaluations += res.transitions;
+        report.traces_validated += res.transitions;
+        report.distinct_nontrivial += match focus {
+            Focus::C05 => res.with_expiry.max(res.with_hit),
+            Focus::C15 => res.with_eviction.max(res.with_expiry),
+        };
+        report.hist("transitions whose operation pruned an expired record", res.with_expiry);
+        report.hist("transitions whose operation evicted a name", res.with_eviction);
+        report.hist("transitions re-inserting a held record", res.with_upsert);
+        report.hist("transitions whose lookup returned a live record", res.with_hit);
+        report.hist("transitions", res.transitions);
+        if res.timed_out {
+            report.exhaustive = false;
+        }
+        searches.push(json!({
+            "desired_size": plan.desired,
+            "clock": if plan.tick { "tick (1 ns per clock read)" } else { "tie (time moves only on advance)" },
+            "depth": plan.depth,
+            "unique_states": res.unique,
+            "generated_states": res.generated,
+            "transitions_executed": res.transitions,
+            "max_depth_reached": res.max_depth,
+            "timed_out": res.timed_out,
+            "stopped_at_first_discovery": res.counterexample.is_some(),
+        }));
+        for s in res.samples {
+            if samples_left > 0 {
+                samples_left -= 1;
+                report
+                    .samples
+                    .push(json!(s.iter().map(show_op).collect::<Vec<_>>()));
+            }
+        }
+        if let Some((ops, f)) = res.counterexample {
+            report.violations.push(Violation {
+                clause: f.clause.to_string(),
+                summary: format!(
+                    "desired_size={} clock={} history=[{}] :: {}",
+                    plan.desired,
+                    if plan.tick { "tick" } else { "tie" },
+                    ops.iter().map(show_op).collect::<Vec<_>>().join(", "),
+                    f.msg
+                ),
+                replay: json!({
+                    "kind": "cache-history",
+                    "desired_size": plan.desired,
+                    "tick": plan.tick,
+                    "ops": ops.iter().map(op_to_json).collect::<Vec<_>>(),
+                }),
+                slug: None,
+            });
+        }
+    }
+    report.extra.insert("searches".into(), json!(searches));
+    report.extra.insert(
+        "alphabet".into(),
+        json!(alphabet.iter().map(show_op).collect::<Vec<_>>()),
+    );
+}
+
+pub fn run(ctx: &Ctx) -> i32 {
+    let alphabet = alphabet(ctx.tier);
+    let plans: Vec<Plan> = match ctx.tier {
+        Tier::Quick => vec![
+            Plan { desired: 2, tick: false, depth: 4 },
+            Plan { desired: 64, tick: false, depth: 4 },
+            Plan { desired: 1, tick: false, depth: 4 },
+            Plan { desired: 64, tick: true, depth: 3 },
+        ],
+        Tier::Thorough => vec![
+            Plan { desired: 2, tick: false, depth: 6 },
+            Plan { desired: 64, tick: false, depth: 6 },
+            Plan { desired: 1, tick: false, depth: 5 },
+            Plan { desired: 64, tick: true, depth: 4 },
+            Plan { desired: 2, tick: true, depth: 4 },
+        ],
+    };
+    let mut report = Report::new();
+    run_plans(
+        ctx,
+        Focus::C05,
+        &alphabet,
+        &plans,
+        &mut report,
+        ctx.tier.pick(40.0, 560.0),
+    );
+    crate::c05net::run_resolver_level(ctx, &mut report);
+    report.rule = "stateright search over all operation histories up to the stated depth (alphabet in coverage.alphabet) on a fresh real SharedCache per transition (re-execution), de-duplicated on (canonical snapshot relative to now + reference bookkeeping, depth, verdict); states = unique states, transitions = executions of a whole history on the real cache, each judged by the reference; non-trivial = histories in which a lookup returned a live record or an expired record was pruned (max of the two counters, measured)".into();
+    report.bounds = json!({
+        "plans": plans.iter().map(|p| json!({"desired_size": p.desired, "tick": p.tick, "depth": p.depth})).collect::<Vec<_>>(),
+        "alphabet_size": alphabet.len(),
+    });
+    report.assumptions = vec![
+        "D2: a record with less than one whole second left may be withheld; it must be served while >= 1 s remains and never once its TTL elapsed".into(),
+        "evictions by an over-size prune are accepted as they happen (judged by C15)".into(),
+        "stateright stops at the first discovery: counts on a violating tree are partial".into(),
+    ];
+    finish(ctx, report)
+}
+
+pub fn replay_history(ctx: &Ctx, v: &Value, focus: Focus) -> i32 {
+    let cfg = Config {
+        desired_size: v["desired_size"].as_u64().unwrap_or(64) as usize,
+        tick: v["tick"].as_bool().unwrap_or(false),
+        focus,
+    };
+    let ops: Vec<Op> = v["ops"]
+        .as_array()
+        .cloned()
+        .unwrap_or_default()
+        .iter()
+        .filter_map(op_from_json)
+        .collect();
+    println!(
+        "history (desired_size={}, tick={}):",
+        cfg.desired_size, cfg.tick
+    );
+    for o in &ops {
+        println!("  {}", show_op(o));
+    }
+    let findings = execute_all(&cfg, &ops);
+    // determinism: a second run must give the same findings
+    let again = execute_all(&cfg, &ops);
+    if findings != again {
+        eprintln!("machinery error: replay is not deterministic");
+        return 2;
+    }
+    let mine: Vec<&Finding> = findings
+        .iter()
+        .filter(|f| clause_owner(f.clause) == focus)
+        .collect();
+    for f in &findings {
+        println!(
+            "  finding [{}]{}: {}",
+            f.clause,
+            if clause_owner(f.clause) == focus { "" } else { " (other property)" },
+            f.msg
+        );
+    }
+    if mine.is_empty() {
+        println!("replay: property holds on this case");
+        0
+    } else {
+        println!("VIOLATION property={} replay=(replayed case)", ctx.id);
+        1
+    }
+}
+
+pub fn replay(ctx: &Ctx, v: &Value) -> i32 {
+    if v["kind"] == "resolver-ttl" {
+        return crate::c05net::replay(ctx, v);
+    }
+    replay_history(ctx, v, Focus::C05)
+}
+
 pub fn worker(_args: &[String]) -> i32 {
     2
 }
